@@ -170,10 +170,11 @@ class BirthDeath(Distribution):
         e = torch.exp(-A * self.origin)
         q0 = 4.0 * e / torch.pow(e * (1.0 - B) + (1.0 + B), 2)
 
+        # the parameters have shape [...,1]: keep that dimension in every term
         log_p = torch.log(q0)
         # condition on sampling at least one individual
         if self.survival:
-            log_p -= torch.log(1.0 - p[..., 0])
+            log_p -= torch.log(1.0 - p[..., :1])
 
         # calculate l(x) with l(t)=1 iff t_{i-1} <= t < t_i
         x = self.origin - node_heights[..., taxa_shape[-1] :]
@@ -185,7 +186,7 @@ class BirthDeath(Distribution):
                 x,
                 self.origin,
             )
-        ).sum(-1)
+        ).sum(-1, keepdim=True)
 
         y = self.origin - tip_heights
         # tips sampled at the present are rho-sampled when rho > 0
@@ -202,9 +203,9 @@ class BirthDeath(Distribution):
                     )
                 )
                 * (~is_rho_tip)
-            ).sum(-1)
+            ).sum(-1, keepdim=True)
         log_p += (
             is_rho_tip
             * torch.where(self.rho > 0.0, self.rho, torch.ones_like(self.rho)).log()
-        ).sum(-1)
+        ).sum(-1, keepdim=True)
         return log_p
